@@ -861,7 +861,12 @@ func (ab *AsmBuf) doasm(p *Prog) {
 				} else {
 					ab.Put1(o.op[z+1])
 				}
-				ab.PutInt32(0)
+				// rel32: the caller has already resolved the target to an
+				// offset from the end of this instruction
+				if p.To.Offset != int64(int32(p.To.Offset)) {
+					panic(fmt.Errorf("call/jmp target out of rel32 range in %v", p))
+				}
+				ab.PutInt32(int32(p.To.Offset))
 
 			case Zcallind:
 				ab.Put2(byte(op), o.op[z+1])
